@@ -161,6 +161,7 @@ type rw struct {
 	skip   map[ast.Node]bool // comm statements / their recv exprs handled by select rewrite
 	recv2  map[ast.Node]bool // recv exprs in 2-value assignment context
 	usedVS bool
+	gen    map[*ast.BlockStmt]bool // blocks generated for select / range-over-map (last statement carries a label)
 	stats  map[string]int
 }
 
@@ -200,7 +201,7 @@ func rewritePkg(fset *token.FileSet, imp types.Importer, dir, importPath, outDir
 	}
 	total := map[string]int{}
 	for i, f := range files {
-		r := &rw{fset: fset, info: info, pkg: pkg, skip: map[ast.Node]bool{}, recv2: map[ast.Node]bool{}, stats: map[string]int{}}
+		r := &rw{fset: fset, info: info, pkg: pkg, skip: map[ast.Node]bool{}, recv2: map[ast.Node]bool{}, gen: map[*ast.BlockStmt]bool{}, stats: map[string]int{}}
 		r.file(f)
 		for k, v := range r.stats {
 			total[k] += v
@@ -327,20 +328,37 @@ func (r *rw) file(f *ast.File) {
 					r.recv2[u] = true
 				}
 			}
-		case *ast.LabeledStmt:
-			switch x.Stmt.(type) {
-			case *ast.SelectStmt:
-				fatalf("%s: labeled select unsupported", r.fset.Position(x.Pos()))
-			case *ast.RangeStmt:
-				if _, ok := r.info.TypeOf(x.Stmt.(*ast.RangeStmt).X).Underlying().(*types.Map); ok {
-					fatalf("%s: labeled range over map unsupported", r.fset.Position(x.Pos()))
-				}
-			}
 		}
 		return true
 	}
 	post := func(c *astutil.Cursor) bool {
 		switch x := c.Node().(type) {
+		case *ast.LabeledStmt:
+			// a labeled select / range-over-map was replaced by a block whose last statement is the generated
+			// switch / loop: the label moves onto that statement so "break L" / "continue L" keep their meaning.
+			if blk, ok := x.Stmt.(*ast.BlockStmt); ok && r.gen[blk] {
+				var hasGoto, hasBreak bool
+				ast.Inspect(f, func(n ast.Node) bool {
+					if b, ok := n.(*ast.BranchStmt); ok && b.Label != nil && b.Label.Name == x.Label.Name {
+						if b.Tok == token.GOTO {
+							hasGoto = true
+						} else {
+							hasBreak = true
+						}
+					}
+					return true
+				})
+				if hasGoto {
+					// goto L re-evaluates the channel operands: the label stays on the whole block.
+					if hasBreak {
+						fatalf("%s: label used by both goto and break/continue on a rewritten statement", r.fset.Position(x.Pos()))
+					}
+					break
+				}
+				n := len(blk.List)
+				blk.List[n-1] = &ast.LabeledStmt{Label: x.Label, Stmt: blk.List[n-1]}
+				c.Replace(blk)
+			}
 		case *ast.GoStmt:
 			c.Replace(r.goStmt(x))
 		case *ast.SelectStmt:
@@ -510,7 +528,9 @@ func (r *rw) selectStmt(s *ast.SelectStmt) ast.Stmt {
 	}
 	sw := &ast.SwitchStmt{Tag: r.vs(fn, cases...), Body: &ast.BlockStmt{List: clauses}}
 	pre = append(pre, sw)
-	return &ast.BlockStmt{List: pre}
+	blk := &ast.BlockStmt{List: pre}
+	r.gen[blk] = true
+	return blk
 }
 
 func (r *rw) rangeMap(x *ast.RangeStmt) ast.Stmt {
@@ -543,8 +563,10 @@ func (r *rw) rangeMap(x *ast.RangeStmt) ast.Stmt {
 	}
 	body = append(body, x.Body.List...)
 	loop := &ast.RangeStmt{Key: id("_"), Value: id(k), Tok: token.DEFINE, X: r.vs("MapKeys", id(m)), Body: &ast.BlockStmt{List: body}}
-	return &ast.BlockStmt{List: []ast.Stmt{
+	blk := &ast.BlockStmt{List: []ast.Stmt{
 		&ast.AssignStmt{Lhs: []ast.Expr{id(m)}, Tok: token.DEFINE, Rhs: []ast.Expr{x.X}},
 		loop,
 	}}
+	r.gen[blk] = true
+	return blk
 }
